@@ -475,7 +475,7 @@ pub fn run(tier: Tier, replay: Option<&str>) {
                         }
                     }
                 }
-                if seen.len() > 400_000 {
+                if seen.len() > 400_000 || ctx.saturated() {
                     capped = true;
                     break;
                 }
